@@ -500,6 +500,21 @@ def compare_traces(model_ops, real_log, model_srcs=None):
             ri += 1
             docstr += 1
             continue
+        if (mi < n_m and model_srcs is not None and model_ops[mi][0] == 'slice' and model_ops[mi][4] == 'fst'
+                and isinstance(model_srcs[mi], list) and model_srcs[mi][0] == 'foreign' and model_ops[mi] != rop):
+            # a run of another tree whose nodes all pass verify_other, but get_slice() / the reparse of the slice refuses (the
+            # other tree's list was edited around them): the code processes the elements one by one, the model stops at the slice
+            lp, s0, e0 = model_ops[mi][1], model_ops[mi][2], model_ops[mi][3]
+            mi += 1
+            while ri < n_r:
+                r2 = real_log[ri]['op']
+                under = len(r2[1]) > len(lp) and r2[1][:len(lp)] == lp and s0 <= r2[1][len(lp)] < e0
+                ins = r2[0] == 'slice' and r2[1] == lp and r2[2] == r2[3] and s0 <= r2[2] < e0 and r2[4] == 'ast'
+                if not (under or ins) or 'raised' in real_log[ri]:
+                    break
+                ri += 1
+            refused += 1
+            continue
         if 'raised' in e:
             # the op that raised may or may not be one the model predicted; the next real op must be the coarser AST put
             if ri + 1 >= n_r:
